@@ -22,8 +22,16 @@ class ShardTimeout(BaseException):
     pass
 
 
-def _on_alarm(signum, frame):
-    raise ShardTimeout("shard exceeded its watchdog limit")
+class HarnessTimeout(BaseException):
+    pass
+
+
+def _on_cpu_limit(signum, frame):
+    raise ShardTimeout("shard exceeded its CPU-time watchdog limit")
+
+
+def _on_wall_limit(signum, frame):
+    raise HarnessTimeout("shard exceeded its wall-clock backstop")
 
 
 def _run_one(args):
@@ -31,13 +39,19 @@ def _run_one(args):
     mod = importlib.import_module(modname)
     rec = core.Rec(mod.ID)
     t0 = time.time()
+    # The watchdog counts *CPU time of this worker* (ITIMER_PROF), so a loaded machine cannot
+    # turn a slow run into a "hang" verdict; a much longer wall-clock backstop only ever yields a
+    # harness error (exit 2), never a violation.
     limit = getattr(mod, "SHARD_TIMEOUT", {}).get(tier, 300 if tier == "quick" else 1800)
-    signal.signal(signal.SIGALRM, _on_alarm)
-    signal.alarm(limit)
+    signal.signal(signal.SIGPROF, _on_cpu_limit)
+    signal.signal(signal.SIGALRM, _on_wall_limit)
+    signal.setitimer(signal.ITIMER_PROF, limit)
+    signal.alarm(max(limit * 20, 4 * 3600))
     try:
         try:
             mod.run_shard(shard, tier, rec)
         finally:
+            signal.setitimer(signal.ITIMER_PROF, 0)
             signal.alarm(0)
     except core.StopShard:
         pass
@@ -63,6 +77,7 @@ def main(argv=None):
     ap.add_argument("--shard", type=int, default=None, help="debug: run only this shard index")
     ap.add_argument("--no-evidence", action="store_true")
     ap.add_argument("--timing", action="store_true", help="print the slowest shards")
+    ap.add_argument("--filter", default=None, help="debug: only shards whose repr contains this text (never writes evidence)")
     a = ap.parse_args(argv)
     tier = a.tier or os.environ.get("VERIF_TIER") or "quick"
     if tier not in ("quick", "thorough"):
@@ -117,6 +132,8 @@ def main(argv=None):
         order = list(range(len(shards)))
     if a.shard is not None:
         order = [a.shard]
+    if a.filter:
+        order = [i for i in order if a.filter in repr(shards[i])]
     jobs = a.jobs or min(16, os.cpu_count() or 1)
     jobs = max(1, min(jobs, len(order)))
     work = [(modname, shards[i], tier, i) for i in order]
@@ -171,7 +188,7 @@ def main(argv=None):
         print("VIOLATION property=%s replay=%s" % (pid, path))
         rc = 1
     wall = time.time() - t0
-    if not a.no_evidence and a.shard is None:
+    if not a.no_evidence and a.shard is None and not a.filter:
         core.write_evidence(mod, tier, seed, total, wall, len(fresh), known_seen, extra)
     lvl = mod.LEVEL
     if lvl == "model_checking":
